@@ -20,7 +20,7 @@ func init() {
 
 func runC09(c *core.Ctx) {
 	runFixtures(c, "valid", "drop", "fold")
-	c.Explain("Structural clauses of C09 decided from source on linux, windows and darwin builds of package hackpadfs/os: (R09.1) every call to a path-taking function of the standard os package receives, as each path operand, the first result of the name→OS-path mapping (rootedPath/toOSPath), at a point dominated by that call's nil-error edge — no raw name reaches the kernel; (R09.2) the mapping validates before it joins and joins path.Join(\"/\", root, name) in that order, so the result is root-prefixed; (R09.3) every non-error return of the reverse mapping returns the constant \".\" or a value tested by ValidPath on the way; (R09.4) the root-prefix test of the reverse mapping respects element boundaries (root+\"/\" or equality); (R09.5) every error produced by a standard os function or *os.File method leaves package os only through the translator that rewrites OS paths into FS-relative names; (R09.6) the exported reverse mapping refuses non-absolute paths before converting; (R09.7) no strings.Replace/ReplaceAll in package os deletes (replaces by the empty string) a non-constant pattern — the root's OS path is taken off a reported path with TrimPrefix only, so a name that contains the root's text again further down ('backup/data/x' under root 'data') is reported intact; (R09.8) a method of os.FS that builds a new os.FS (Sub) stores into every string field of the new value something derived from the receiver's same field — a volume name left at the constructor's default moves the view to another volume. (R09.9) no prefix cut off an OS path is admitted by a case-insensitive comparison; (R09.10) os.FS.Sub never stores the root \".\". (R09.11) relPath never answers a rooted name; (R09.12) = R07.1 under C09. (R09.13) separator parameters are used and no literal backslash is replaced; (R09.14) every Path/Old/New of a rebuilt os error is last stored from relPath. NOT claimed: ToOSPath∘FromOSPath = id (string arithmetic), volume handling on real Windows paths beyond these shapes.")
+	c.Explain("Structural clauses of C09 decided from source on linux, windows and darwin builds of package hackpadfs/os: (R09.1) every call to a path-taking function of the standard os package receives, as each path operand, the first result of the name→OS-path mapping (rootedPath/toOSPath), at a point dominated by that call's nil-error edge — no raw name reaches the kernel; (R09.2) the mapping validates before it joins and joins path.Join(\"/\", root, name) in that order, so the result is root-prefixed; (R09.3) every non-error return of the reverse mapping returns the constant \".\" or a value tested by ValidPath on the way; (R09.4) the root-prefix test of the reverse mapping respects element boundaries (root+\"/\" or equality); (R09.5) every error produced by a standard os function or *os.File method leaves package os only through the translator that rewrites OS paths into FS-relative names; (R09.6) the exported reverse mapping refuses non-absolute paths before converting; (R09.7) no strings.Replace/ReplaceAll in package os deletes (replaces by the empty string) a non-constant pattern — the root's OS path is taken off a reported path with TrimPrefix only, so a name that contains the root's text again further down ('backup/data/x' under root 'data') is reported intact; (R09.8) a method of os.FS that builds a new os.FS (Sub) stores into every string field of the new value something derived from the receiver's same field — a volume name left at the constructor's default moves the view to another volume. (R09.9) no prefix cut off an OS path is admitted by a case-insensitive comparison; (R09.10) os.FS.Sub never stores the root \".\". (R09.11) relPath never answers a rooted name; (R09.12) = R07.1 under C09. (R09.13) separator parameters are used and no literal backslash is replaced; (R09.14) every Path/Old/New of a rebuilt os error is last stored from relPath. (R09.15) the error translator returns an error untranslated only for reasons in the error itself; (R09.16) nothing reachable from fromOSPath cleans the path. NOT claimed: ToOSPath∘FromOSPath = id (string arithmetic), volume handling on real Windows paths beyond these shapes.")
 	c.Assume("A2: standard os/path/filepath functions behave as documented")
 	c.RuleDoc("R09.1", "only mapped paths reach standard os calls, on the mapping's success edge")
 	c.RuleDoc("R09.2", "mapping = validate, then path.Join(\"/\", root, name)")
@@ -29,6 +29,8 @@ func runC09(c *core.Ctx) {
 	c.RuleDoc("R09.5", "standard os errors pass through the translator")
 	c.RuleDoc("R09.6", "FromOSPath requires an absolute path")
 	c.RuleDoc("R09.13", "the separator conversions use the separator they are given: no unused separator parameter, no literal backslash")
+	c.RuleDoc("R09.15", "the os error translator returns an error untranslated only for reasons in the error itself")
+	c.RuleDoc("R09.16", "the reverse mapping refuses unclean OS paths (no Clean)")
 	c.RuleDoc("R09.14", "every path field of an error rebuilt by the translator is passed through relPath on every path")
 	c.RuleDoc("R09.11", "os.relPath never returns a path with a leading separator")
 	c.RuleDoc("R09.12", "Sub roots are joined with path.Join on validated names (= R07.1)")
@@ -60,6 +62,7 @@ func runC09(c *core.Ctx) {
 		r09RelPathUnrooted(c, p)
 		r09SeparatorIsAParameter(c, p)
 		r09EveryPathFieldTranslated(c, p)
+		r09TranslatorAlwaysTranslates(c, p)
 		// R09.12 (= R07.1): roots are joined with path.Join on validated names, never glued with "+"
 		{
 			va := newValidAnalysis(p)
@@ -82,6 +85,8 @@ func runC09(c *core.Ctx) {
 	c.Floor("R09.11", 1)
 	c.Floor("R09.13", 2)
 	c.Floor("R09.14", 3)
+	c.Floor("R09.15", 1)
+	c.Floor("R09.16", 1)
 	c.Floor("R09.12", 5)
 }
 
@@ -876,4 +881,141 @@ func r09EveryPathFieldTranslated(c *core.Ctx, p *load.Program) {
 	if n == 0 {
 		c.Hard("anchor: the error translator of package os (a function that calls relPath and rebuilds error values)")
 	}
+}
+
+// r09TranslatorAlwaysTranslates (R09.15 / R09.16): (R09.15) the os error translator (the function that calls relPath)
+// hands its error parameter back unchanged only on paths decided by the error itself (nil, or not a *PathError /
+// *LinkError): no such return is dominated by a test of a field of the receiver — "no Sub root, nothing to strip" leaves
+// absolute OS paths in the errors of an unrooted FS; (R09.16) the reverse mapping refuses unclean OS paths: nothing
+// reachable from fromOSPath calls path.Clean / filepath.Clean on the part behind the root ("/root/../x" must not become "x").
+func r09TranslatorAlwaysTranslates(c *core.Ctx, p *load.Program) {
+	rel := p.Func("os", "relPath")
+	n := 0
+	for _, fn := range pkgFuncs(p, "os") {
+		if fn.Blocks == nil || fn == rel || fn.Parent() != nil || len(fn.Params) < 2 {
+			continue
+		}
+		calls := false
+		ssax.Instrs(fn, func(ins ssa.Instruction) {
+			if cl, ok := ins.(*ssa.Call); ok && rel != nil && ssax.StaticCallee(cl) == rel {
+				calls = true
+			}
+		})
+		if !calls {
+			continue
+		}
+		recv := recvParam(fn)
+		var errP *ssa.Parameter
+		for _, q := range fn.Params {
+			if ssax.IsErrorType(q.Type()) {
+				errP = q
+			}
+		}
+		if errP == nil || recv == nil {
+			continue
+		}
+		n++
+		bad := ""
+		onRecv := func(cond ssa.Value) bool {
+			return dependsOn(cond, func(x ssa.Value) bool {
+				b, _, ok := ssax.FieldLoad(x)
+				return ok && b == ssa.Value(recv)
+			})
+		}
+		// chain walks backwards over the blocks of one short-circuit condition (blocks that only compute and branch)
+		var chain func(b *ssa.BasicBlock, seen map[*ssa.BasicBlock]bool) bool
+		chain = func(b *ssa.BasicBlock, seen map[*ssa.BasicBlock]bool) bool {
+			if seen[b] {
+				return false
+			}
+			seen[b] = true
+			iff, ok := b.Instrs[len(b.Instrs)-1].(*ssa.If)
+			if !ok {
+				return false
+			}
+			if onRecv(iff.Cond) {
+				return true
+			}
+			for _, ins := range b.Instrs {
+				switch ins.(type) {
+				case *ssa.FieldAddr, *ssa.UnOp, *ssa.BinOp, *ssa.If, *ssa.Phi, *ssa.DebugRef:
+				default:
+					return false
+				}
+			}
+			for _, q := range b.Preds {
+				if chain(q, seen) {
+					return true
+				}
+			}
+			return false
+		}
+		for _, r := range ssax.Returns(fn) {
+			if len(r.Results) != 1 {
+				continue
+			}
+			var starts []*ssa.BasicBlock
+			switch v := resolveSpilled(r.Results[0], r).(type) {
+			case *ssa.Parameter:
+				if v == errP {
+					starts = append(starts, r.Block().Preds...)
+					for _, f := range ssax.FactsAtInstr(r) {
+						if onRecv(f.Cond) {
+							bad = p.Pos(r.Pos())
+						}
+					}
+				}
+			case *ssa.Phi:
+				for i, e := range v.Edges {
+					if e == ssa.Value(errP) {
+						starts = append(starts, v.Block().Preds[i])
+						for _, f := range ssax.FactsAt(v.Block().Preds[i]) {
+							if onRecv(f.Cond) {
+								bad = p.Pos(r.Pos())
+							}
+						}
+					}
+				}
+			}
+			for _, b := range starts {
+				if chain(b, map[*ssa.BasicBlock]bool{}) {
+					bad = p.Pos(r.Pos())
+				}
+			}
+		}
+		c.Check(bad == "", "R09.15", fname(fn)+"|unchanged-only-for-reasons-in-the-error", p.Pos(fn.Pos()), "no return of the untranslated error depends on a field of the file system",
+			fmt.Sprintf("%s returns its error untranslated at %s on a path chosen by a field of the file system (no Sub root …): for such an FS every failing os call reports the absolute OS path, and Rename fails with a raw *os.LinkError", fname(fn), bad))
+	}
+	if n == 0 {
+		c.Hard("anchor: the error translator of package os")
+	}
+	from := p.Method("os", "FS", "fromOSPath")
+	if from == nil {
+		c.Hard("anchor: os.(*FS).fromOSPath")
+		return
+	}
+	badClean := ""
+	seen := map[*ssa.Function]bool{}
+	var visit func(f *ssa.Function, d int)
+	visit = func(f *ssa.Function, d int) {
+		if f == nil || seen[f] || f.Blocks == nil || d > 2 {
+			return
+		}
+		seen[f] = true
+		ssax.Instrs(f, func(ins ssa.Instruction) {
+			cl, ok := ins.(*ssa.Call)
+			if !ok {
+				return
+			}
+			if (ssax.CalleeIs(cl, "path", "Clean") || ssax.CalleeIs(cl, "path/filepath", "Clean")) && badClean == "" {
+				badClean = fname(f) + " at " + p.Pos(cl.Pos())
+			}
+			if callee := ssax.StaticCallee(cl); callee != nil && p.InModule(callee) {
+				visit(callee, d+1)
+			}
+		})
+	}
+	visit(from, 0)
+	c.Check(badClean == "", "R09.16", "os.FS.fromOSPath|refuses-instead-of-cleaning", p.Pos(from.Pos()), "no Clean on the way from an OS path to a name",
+		fmt.Sprintf("%s normalises the OS path it maps back: \"/root/../x\" climbs out of the root and must be refused, not turned into the unrelated name \"x\" (the ValidPath test after a Clean can no longer fail)", badClean))
 }
